@@ -32,11 +32,14 @@ ASSUMPTIONS = [
     "sequential awaits only (overlap is C11)",
 ]
 
-VALUES = [0, 1, 2, 1.0, 2.0, True, False, None, "a", "1", (1,), (1.0,), (1, 2), "LIST", "boom"]
+NAN = float("nan")  # ONE object: the very same NaN passed again is the same pattern for functools
+VALUES = [0, 1, 2, 1.0, 2.0, True, False, None, "a", "1", (1,), (1.0,), (1, 2), "LIST", "boom", "NAN"]
 
 
 def _val(v):
-    return [] if v == "LIST" else v
+    if isinstance(v, str) and v == "NAN":
+        return NAN
+    return [] if isinstance(v, str) and v == "LIST" else v
 
 
 # indexes into VALUES; the confusable values 1 / 1.0 / True / (1,) / (1.0,) are over-weighted
